@@ -1507,6 +1507,13 @@ def run_C05(rep, tier, rng):
         special.append(f"start X\nenum X {{ {nm}($T) }}\nterminal K {{ $T: crate::P }}\n")
     special.append("start Node\nstruct Node { a: Node2 }\nstruct Node2 { states: $State nodes: $Node3 }\nterminal State2 { $State: () $Node3: crate::G<(), crate::P> }\n")
     special.append("start X struct X terminal K { }\n")
+    # a helper name together with its numbered neighbours: the suffix search has to pass every one of them
+    for nm in ["State", "Node", "Action", "RuleKind", "Eof", "Quasiterminal", "QuasiterminalKind", "NonterminalKind", "ACTION_TABLE", "GOTO_TABLE", "S"]:
+        for upto in (3, 5):
+            fam = [nm] + [f"{nm}{j}" for j in range(2, upto + 1)]
+            special.append(f"start {fam[0]}\n" + "".join(f"struct {x} {{ a: $T }}\n" for x in fam) + "terminal K { $T: crate::P }\n")
+        special.append(f"start X\nstruct X {{ a: ${nm} b: ${nm}2 c: ${nm}3 }}\nterminal K {{ ${nm}: crate::P ${nm}2: () ${nm}3: usize }}\n")
+        special.append(f"start {nm}2\nstruct {nm}2 {{ a: ${nm} }}\nstruct {nm}3\nterminal K {{ ${nm}: crate::P }}\n")
     res = kv.run_impl("generate", [kv.hexs(t) for t in special])
     cases = [(None, t, e) for _, t, e in pool] + [(None, t, kv.unhexs(o[4:-1])) for t, o in zip(special, res) if o.startswith("(ok ")]
     verdicts = corr.rustc_check_many(os.path.join(kv.WORK, "c05"), [e for _, _, e in cases])
